@@ -364,6 +364,13 @@ class HistoryTrackerInterface(interfaces.Interface):
             # weird special stuff for loc, just leave it be.
             keys = [key for key in keys if key != "loc"]
             data = dbi.getHistories(blocks, keys, timesteps)
+            # The database interface reports the live value for the current time step. That is
+            # not history yet: it may change before (or after) the database writes the step, so
+            # it must not be kept; getBlockHistoryVal serves the current step itself.
+            now = (self.r.p.cycle, self.r.p.timeNode)
+            for paramHistories in data.values():
+                for history in paramHistories.values():
+                    history.pop(now, None)
             self._preloadedBlockHistory = data
         except Exception:
             # fails during the beginning of standard runs, but that's ok
